@@ -113,7 +113,9 @@ def integer_conv_streams(quick_cnt, thorough_cnt):
 
 FIX_BTS = ["u8", "u16", "u32"]
 FIX_SMALL = [(n, r) for n in range(2, 9) for r in range(0, n + 1)] + [(9, 0), (9, 4), (9, 9)]
-FIX_LARGE = [(12, 4), (16, 8), (17, 8), (24, 12), (32, 16), (33, 16), (40, 20), (64, 32)]
+FIX_LARGE = [(12, 4), (16, 8), (17, 8), (24, 12), (32, 16), (33, 16), (40, 20), (64, 32),
+             # wider than 64 bits: divisors and dividends longer than a machine word (near-tie quotients with > 64-bit divisors)
+             (72, 8), (80, 8), (80, 40), (96, 24), (128, 64)]
 
 
 def fixpnt_streams(quick_pairs, thorough_pairs):
